@@ -34,16 +34,16 @@ func genC22(rt *rapid.T) c22Case {
 		c.BankGroups = rapid.SampledFrom([]int{1, 2, 4, 8}).Draw(rt, "bgs")
 		c.Banks = rapid.SampledFrom([]int{1, 2, 4, 8}).Draw(rt, "banks")
 	}
-	if rapid.IntRange(0, 9).Draw(rt, "al") == 0 {
+	if rapid.IntRange(0, 9).Draw(rt, "al") == 9 {
 		c.TAL = rapid.IntRange(1, minInt(base.TRCD-1, 8)).Draw(rt, "tal")
 	}
-	if rapid.IntRange(0, 2).Draw(rt, "refresh") == 0 {
+	if rapid.IntRange(0, 2).Draw(rt, "refresh") == 2 {
 		c.TREFI = rapid.IntRange(100, 900).Draw(rt, "trefi")
 		c.TRFC = rapid.IntRange(4, 120).Draw(rt, "trfc")
 	}
 	c.TransQ = rapid.SampledFrom([]int{0, 0, 6, 8, 16}).Draw(rt, "transq")
 	c.CmdQ = rapid.SampledFrom([]int{0, 0, 1, 2, 4}).Draw(rt, "cmdq")
-	if rapid.IntRange(0, 2).Draw(rt, "sepq") == 0 {
+	if rapid.IntRange(0, 2).Draw(rt, "sepq") == 2 {
 		c.ReadQ = rapid.IntRange(1, 8).Draw(rt, "readq")
 		c.WriteQ = rapid.IntRange(1, 8).Draw(rt, "writeq")
 		ranks := base.NumRank
@@ -56,7 +56,7 @@ func genC22(rt *rapid.T) c22Case {
 	c.TopBuf = rapid.SampledFrom([]int{1, 2, 4, 16}).Draw(rt, "topbuf")
 	c.ReqBuf = rapid.SampledFrom([]int{1, 2, 4, 16}).Draw(rt, "reqbuf")
 	c.MaxOut = rapid.IntRange(1, 16).Draw(rt, "maxout")
-	if rapid.IntRange(0, 3).Draw(rt, "slowdrain") == 0 {
+	if rapid.IntRange(0, 3).Draw(rt, "slowdrain") == 3 {
 		c.RspEvery = rapid.IntRange(2, 9).Draw(rt, "rspevery")
 	}
 	c.ReqAt1GHz = rapid.Bool().Draw(rt, "req1ghz")
@@ -74,9 +74,9 @@ func genC22(rt *rapid.T) c22Case {
 	rowPool := []int{0, 1, 2, 3, 5, base.NumRow - 2, base.NumRow / 2}
 	gap := func() int {
 		switch rapid.IntRange(0, 9).Draw(rt, "gapclass") {
-		case 0:
+		case 9:
 			return rapid.IntRange(20, 200).Draw(rt, "gap")
-		case 1, 2:
+		case 7, 8:
 			return rapid.IntRange(1, 6).Draw(rt, "gap")
 		}
 		return 0
@@ -159,7 +159,7 @@ func genC22(rt *rapid.T) c22Case {
 
 // ------------------------------------------------------------------ the check
 
-const c22Rule = "case = exported preset (DefaultSpec/DDR3, DDR4, DDR5, HBM2, HBM3, GDDR6) x page policy x optional geometry tweak (ranks 1-4, bank groups 1-8, banks 1-8) x optional tAL>0 x optional scaled tREFI/tRFC x queue configuration (transaction queue 6-32, command queue 1-8, or separate read/write queues 1-8 with watermarks) x port buffers 1-16 x 1-16 outstanding x requester clock x slow response drain; script of 1-300 reads/writes (1 byte to 4 access units, unaligned, nil/all-true/partial dirty masks, read-backs of earlier ranges) placed by DRAM coordinates: same bank+row as a recent request (hit), same bank other row (conflict), random rank/group/bank; gaps 0-200 cycles; no two in-flight requests overlap in bytes (the requester stalls in script order). " +
+const c22Rule = "case = exported preset (DefaultSpec/DDR3, DDR4, DDR5, HBM2, HBM3, GDDR6) x page policy x optional geometry tweak (ranks 1-4, bank groups 1-8, banks 1-8) x optional tAL>0 x optional scaled tREFI/tRFC x queue configuration (transaction queue 6-32, command queue 1-8, or separate read/write queues 1-8 with watermarks) x port buffers 1-16 x 1-16 outstanding x requester clock x slow response drain; script of 1-300 reads/writes (1 byte to 4 access units, unaligned, nil/all-true/partial dirty masks, read-backs of earlier ranges) placed by DRAM coordinates: same bank+row as a recent request (hit), same bank other row (conflict), random rank/group/bank, or a bank sweep (5-12 back-to-back unit-sized requests over distinct banks of one rank, which makes tRRD and tFAW bind); gaps 0-200 cycles; no two in-flight requests overlap in bytes (the requester stalls in script order). " +
 	"Executed on the real dram.Comp + SerialEngine + direct connection; commands observed through hook H1. Oracles: " + assertedRelations +
 	"; completion: exactly one response of the matching kind per request with RspTo=request ID and Dst=sender, nothing outstanding when Run returns, every access unit of a request got a column command of its direction before the response; data: reads equal a flat byte map updated at write acknowledgement honouring DirtyMask, never-written bytes read as zero. " +
 	"Non-trivial (measured on the observed stream): open page: >=1 row conflict (PRE of an open bank then ACT of another row), >=1 row hit (second column command in one activation) and >=2 banks open at once; close page (auto-precharge, a row hit cannot exist): >=1 bank re-activated with another row and >=2 banks open at once"
@@ -304,23 +304,35 @@ func TestC22DirtyMaskRegression(t *testing.T) {
 	s := kit.Begin(t, "C22", "dirtymask-regression",
 		"deterministic regression of a repaired finding, every preset x both page policies: write of 2 bytes at address 0 with a partial DirtyMask, then read of the same 2 bytes; the byte excluded by the mask must still read as zero")
 	defer s.End()
-	if kit.ReplayMode() {
+	check := func(c c22Case) bool {
+		o := evaluate(c, true)
+		for _, p := range o.probs {
+			s.Fail(t, c, p.sig, "%s", p.msg)
+			return false
+		}
+		if o.run.maskedWrites == 0 {
+			t.Fatalf("harness: the regression did not send a masked write")
+		}
+		s.Note(c, false, c.Preset) // fixed tiny inputs: never counted as non-trivial
+		return true
+	}
+	var rc c22Case
+	if ok, err := kit.LoadReplay("C22", "dirtymask-regression", &rc); ok {
+		if err != nil {
+			t.Fatal(err)
+		}
+		check(rc)
+		return
+	} else if kit.ReplayMode() {
 		t.Skip()
 	}
 	for _, preset := range presetNames {
 		for _, open := range []bool{true, false} {
 			c := dirtyMaskCase()
 			c.Preset, c.OpenPage = preset, open
-			o := evaluate(c, true)
-			if o.run != nil && o.run.maskedWrites == 0 {
-				t.Fatalf("harness: the regression did not send a masked write")
-			}
-			for _, p := range o.probs {
-				s.Fail(t, c, p.sig, "%s", p.msg)
+			if !check(c) {
 				return
 			}
-			s.Note(c, true, preset)
 		}
 	}
-	s.Exhaustive()
 }
